@@ -64,9 +64,11 @@ static void mktext(uint64_t seed, int allow_nul)
     size_t i;
     tlen = (size_t)(splitmix64(&x) % 9);
     for (i = 0; i < tlen; i++) {
-        unsigned v = (unsigned)(splitmix64(&x) % (allow_nul ? 7 : 3));
-        char c = v < 3 ? (char)('a' + v) : v < 6 ? (char)('a' + v - 3) : 0;
-        tbuf[i] = c; twbuf[i] = (wchar_t)c;
+        /* narrow alphabet includes bytes >= 0x80 (signed-char slips), wide alphabet values beyond one byte */
+        static const unsigned char alpha[] = { 'a', 'b', 'c', 'a', 'b', 'z', 0xe9, 0xff, 0x80 };
+        unsigned v = (unsigned)(splitmix64(&x) % (allow_nul ? 10 : 9));
+        unsigned char c = v < 9 ? alpha[v] : 0;
+        tbuf[i] = (char)c; twbuf[i] = (g_wide && c >= 0x80) ? (wchar_t)(0x100 + c) : (wchar_t)c;   /* twbuf doubles as the model's view */
     }
     tbuf[tlen] = 0; twbuf[tlen] = 0;
 }
@@ -246,7 +248,8 @@ static void s_once(const plan_t *p)
         case S_INSERT: case S_APPEND: {
             static wchar_t src[MAXS + 16]; size_t srcn = 0, j;
             int is_append = o->kind == S_APPEND_CH || o->kind == S_APPEND_STR_N || o->kind == S_APPEND_STR || o->kind == S_APPEND;
-            wchar_t ch = (wchar_t)("abc\0"[o->a[3] % 4]);
+            static const unsigned char chs[] = { 'a', 'b', 'c', 0, 'z', 0xe9, 0xff, 0 };
+            wchar_t ch = w && chs[o->a[3] % 8] >= 0x80 ? (wchar_t)(0x100 + chs[o->a[3] % 8]) : (wchar_t)chs[o->a[3] % 8];
             int huge = 0;
             pos = is_append ? size : sym_pos(o->a[1], o->a[2], size, size, provoke == 1, &ctx);
             if (pos > size) must_abort = 1;
@@ -393,7 +396,8 @@ static void s_once(const plan_t *p)
 
         case S_FIND_CH: case S_FIND_STR: case S_FIND: {
             long long expect = -1; size_t hl;
-            wchar_t ch = (wchar_t)("abc\0"[o->a[3] % 4]);
+            static const unsigned char chs[] = { 'a', 'b', 'c', 0, 'z', 0xe9, 0xff, 0 };
+            wchar_t ch = w && chs[o->a[3] % 8] >= 0x80 ? (wchar_t)(0x100 + chs[o->a[3] % 8]) : (wchar_t)chs[o->a[3] % 8];
             int alt_ok = 0;
             if (size == 0 && !provoke) { EVT("skip", 0, 0, 0); break; }
             pos = sym_pos(o->a[1], o->a[2], size, size ? size - 1 : 0, provoke == 1, &ctx);
